@@ -293,6 +293,9 @@ def judge_num(st, S, T, v, obs, ctx, case):
     conv = R.conv_name(S, T)
     chk.evaluated()
     chk.count("num_" + ctx)
+    if S.kind == "int" and obs is not None and obs == R.fast_expected(S, T, v):
+        chk.nontrivial(("num", S.key, T.key, vclass(S, v), "err" if obs == ERR else "val", ctx))
+        return
     src = f"{S.sql} {show(S, v)} -> {T.sql}"
     if obs is None:
         chk.violation({"kind": "null-result", "conv": conv}, f"{src} [{ctx}]: NULL result from a non-NULL source", {"cases": [case], "run_kw": {"env": ENV}})
@@ -352,7 +355,10 @@ def plan_numeric(st, S, T, vals, rng, thorough):
             x = R.exact(S, v)
             return (1, 0) if isinstance(x, str) else (0, abs(x))
         bad_sorted = sorted(bad, key=dist)
-        bad = bad_sorted[:cap // 2] + rng.sample(bad_sorted[cap // 2:], cap - cap // 2)
+        forced = [v for v in (bad_sorted[-6:] if S.kind != "int" else []) + [x for x in bad if S.kind == "int" and x in (S.lo, S.hi)]]
+        near = [v for v in bad_sorted[:cap // 2] if v not in forced]
+        rest = [v for v in bad_sorted[cap // 2:] if v not in forced]
+        bad = forced + near + rng.sample(rest, max(0, min(len(rest), cap - len(forced) - len(near))))
     for i, v in enumerate(bad):
         add_probe(st, f"pb/{S.key}/{T.key}/{i}", S, T, v, const=(i % 4 == 0))
 
@@ -1152,7 +1158,10 @@ def plan_chains(st, has, vals, rng, thorough):
     prim = R.INTS + R.FLOATS
     triples = [(S, M, T) for S in prim for M in prim for T in prim if S is not M and M is not T and has(S, M) and has(M, T)]
     if not thorough:
-        triples = rng.sample(triples, min(len(triples), 160))
+        fixed = {("double", "real", "double"), ("double", "half", "double"), ("int", "smallint", "bigint"), ("smallint", "half", "int"), ("real", "tinyint", "double"),
+                 ("bigint", "double", "bigint"), ("usmallint", "utinyint", "uint"), ("half", "utinyint", "real")}
+        keep = [t for t in triples if (t[0].key, t[1].key, t[2].key) in fixed]
+        triples = keep + rng.sample([t for t in triples if t not in keep], min(len(triples) - len(keep), 150))
     for (S, M, T) in triples:
         pool = vals[S.key]
         pool = pool if len(pool) <= 400 else rng.sample(pool, 400)
@@ -1315,7 +1324,7 @@ def judge_bin(st, job, res, case):
         if job["valid"]:
             chk.violation(dict(outcome_signature(res if "died" in res else next(s for s in res["steps"] if s["outcome"] == "panic")), conv="binary->text"), f"{what}: crash {str(info)[:300]}", rp)
         else:
-            chk.violation({"kind": "invalid-utf8-accepted", "conv": "binary->text", "class": "crash"}, f"{what}: bytes that are not UTF-8: no error, the engine crashes instead: {str(info)[:300]}", rp)
+            chk.violation({"kind": "invalid-utf8-accepted", "conv": "binary->text"}, f"{what}: bytes that are not UTF-8: no error, the engine crashes instead: {str(info)[:300]}", rp)
         return
     steps = res["steps"]
     if steps[1]["outcome"] != "rows" or [R.from_json(R.BINARY, r[0]) for r in steps[1]["rows"]] != job["vals"]:
